@@ -881,6 +881,38 @@ class Interp:
         return DRef(d)
 
     def e_JoinedStr(self, st, e, fr):
+        h = getattr(getattr(self.task, "c", None), "fstring", None)
+        if h is not None:
+            # contract-file hook: an f-string whose VALUE matters and has symbolic fields (`f"#{r:x}{g:x}{b:x}"` on
+            # modelled ints / modelled strs).  The hook receives the evaluated pieces — str constants and
+            # (value, format-spec, conversion) triples — and returns the modelled str, or NotImplemented to fall
+            # through to the core rule below (opaque message text).  Fields are evaluated once, left to right.
+            pieces = []
+            for v in e.values:
+                if isinstance(v, ast.Constant):
+                    pieces.append(str(v.value))
+                else:
+                    spec = ""
+                    if v.format_spec is not None:
+                        spec = "".join(str(c.value) for c in v.format_spec.values if isinstance(c, ast.Constant))
+                    pieces.append((self.eval(st, v.value, fr), spec, v.conversion))
+            if any(isinstance(p, tuple) and isinstance(p[0], Sym) for p in pieces):
+                r = h(self, st, pieces)
+                if r is not NotImplemented:
+                    return r
+                return ("fstring", tuple(p if isinstance(p, str) else "<sym>" for p in pieces))
+            out = []
+            for p in pieces:
+                if isinstance(p, str):
+                    out.append(p)
+                    continue
+                x, spec, conv = p
+                if isinstance(x, (FnVal, SExc)):
+                    out.append("<sym>")
+                    return ("fstring", tuple(out))
+                x = repr(x) if conv == ord("r") else str(x) if conv == ord("s") else x
+                out.append(format(x, spec))
+            return "".join(out)
         parts = []
         for v in e.values:
             if isinstance(v, ast.Constant):
@@ -970,6 +1002,12 @@ class Interp:
             r = h(self, st, op, a, b)
             if r is not NotImplemented:
                 return r
+        for x, refl in ((a, False), (b, True)):
+            # a modelled value (ModelObj) may define the operator itself: py_binop(ip, st, op, other, reflected)
+            if isinstance(x, ModelObj) and hasattr(x, "py_binop"):
+                r = x.py_binop(self, st, op, a if refl else b, refl)
+                if r is not NotImplemented:
+                    return r
         if not isinstance(a, Sym) and not isinstance(b, Sym):
             try:
                 return self._concrete_binop(op, a, b)
@@ -1200,6 +1238,8 @@ class Interp:
             return r
         if isinstance(container, (str, bytes)) and not isinstance(x, Sym):
             return x in container
+        if isinstance(container, str) and isinstance(x, ModelObj) and hasattr(x, "py_in_str"):
+            return x.py_in_str(self, st, container)  # <modelled str> in "constant": the model decides
         if isinstance(container, (LRef, SSeq)) and getattr(self.task.c, "abstract_contains", False):
             # membership in a sequence of symbolic length, left unspecified (the contract does not depend on it)
             return st.fresh_bool("contains")
